@@ -13,10 +13,11 @@ PARTIAL = ["C16(a), mutex half, is PROVED (Properties_C16a over Model/MuDbgModel
            "threads running nsync_mu_debug_state / _and_waiters / nsync_mu_debugger one atomic site at a time, values and loop guards from Gen/Sites.v): a debugger "
            "step changes no holder, queue, waiting flag or semaphore and no bit of the word but MU_SPINLOCK (C16a_holders); exclusion and word_agrees hold in every "
            "reachable combined world (C16a_exclusion); spinlock discipline and owner exclusion (C16a_spinlock_discipline, C16a_owner_excludes); no debugger pc is a "
-           "semaphore wait and an owner releases within 2*records+3 own steps (C16a_never_blocks family); NO LOST HAND-OFF with debuggers present: MuProof3's HInv "
+           "semaphore wait and an owner releases within 2*records+3 own steps (C16a_no_semaphore -- by construction of the debugger's step type --, C16a_release_within_2, C16a_owner_releases, C16a_nonowner_inert); NO LOST HAND-OFF with debuggers present: MuProof3's HInv "
            "lifted to the combined system (C16a_no_lost_handoff, C16a_last_holder_must_scan, C16a_spinlock_owner_live: whoever owns the spin bit is enabled); the "
            "F2 regression as a theorem about the OLD code shape (C16a_stale_store_refuted: with the plain store of the stale word two lockers hold W).  Same "
-           "partiality as C02b (the reader half says 'held in either mode'); condition-free MuModel",
+           "partiality as C02b (the reader half says 'held in either mode'); condition-free MuModel WITHOUT cv traffic or nsync_mu_wait callers on the same mutex: wake_waiters as a "
+           "third kind of spinlock owner is not a participant of MuDbgModel (the stale-MU_WAITING state of F15 was outside it too)",
            "C16(a), cv half (Properties_C16c over Model/CvDbgModel.v): the debugger changes only CV_SPINLOCK, the plain release store of the word returned at "
            "acquisition is exact (every other write of cv->word happens under the spinlock), owner exclusion, never blocks, CvProof.AInv of the base world whenever "
            "no debugger owns; NOT proved: CvProof2-7 (no lost cv wake-up) over the combined system -- that part stays with the write-monitor / stuck oracles",
